@@ -66,40 +66,49 @@ theorem C03_decodeTuple (dec : Dec) (cols : List Col) (mcols : List Column) (r :
   rw [if_neg this, C03_layout dec cols mcols r hdr hm hwf]
 
 /-- **Through the tuple parser.**  The same for the row as it sits in a page: `ParseHeapTuple` of the formed
-tuple's bytes (23-byte header, null bitmap, padding to MAXALIGN, data) followed by DecodeTuple. -/
-theorem C03_scanned (dec : Dec) (cols : List Col) (mcols : List Column) (r : RowV)
-    (hm : ColsMatch 0 mcols cols) (hwf : r.WF cols) (hne : mcols ≠ []) :
-    (parseHeapTuple (encTuple (formTuple cols r)) >>= fun ot =>
+tuple's bytes (23-byte header, null bitmap, padding to MAXALIGN, data) followed by DecodeTuple — for ANY values of
+the header fields that play no part in decoding (`h`: xmin, xmax, cid, t_ctid, the HEAP_KEYS_UPDATED / HOT_UPDATED /
+ONLY_TUPLE and unused bits of t_infomask2) and any t_infomask (`r.infomask`). -/
+theorem C03_scanned (dec : Dec) (cols : List Col) (mcols : List Column) (h : HdrFields) (r : RowV)
+    (hh : h.WF) (hm : ColsMatch 0 mcols cols) (hwf : r.WF cols) (hne : mcols ≠ []) :
+    (parseHeapTuple (encTuple (formTupleH h cols r)) >>= fun ot =>
         match ot with
         | some t => decodeTuple dec t mcols
         | none => pure none) =
       (expectedCols (varlenaVal dec) cols r.vals r.natts >>= fun ps => pure (some (toRow ps))) := by
-  rw [Proofs.parseHeapTuple_enc _ (formTuple_WF cols r hwf)]
+  rw [Proofs.parseHeapTuple_enc _ (formTupleH_WF h hh cols r hwf)]
   simp only [ok_bind]
-  rw [mtuple_formTuple cols r hwf]
+  rw [mtuple_formTupleH h cols r hwf]
   exact C03_decodeTuple dec cols mcols r _ hm hwf hne
 
 /-- **Whole files (the refinement theorem `readRows_enc` of the design).**  For every well-formed heap file
 (any number of pages, all-zero pages, line pointers in any state and order, a trailing partial block) whose
-stored tuples are the rows `rvs` of schema `cols` in scan order, every schema presentation `mcols` matching
-`cols` and both settings of the visibility switch: ReadRows returns, in scan order, exactly the expected row of
-each stored row version (all of them, or those whose own hint bits say live). -/
+stored tuples are the row versions `rvs` of schema `cols` in scan order — each with ARBITRARY xmin / xmax / cid /
+t_ctid / t_infomask2 flag bits (`v.1 : HdrFields`: never-updated tuples, dead versions left by UPDATE / DELETE, HOT
+successors) and arbitrary t_infomask —, every schema presentation `mcols` matching `cols` and both settings of the
+visibility switch: ReadRows returns, in scan order, exactly the expected row of each stored row version (all of
+them, or those whose own hint bits say live); the expected row depends on the attribute values and the stored
+attribute count only. -/
 theorem C03_file (dec : Dec) (cols : List Col) (mcols : List Column) (bs : List Block) (tail : Bytes) (vis : Bool)
-    (rvs : List RowV) (hb : ∀ b ∈ bs, b.WF) (ht : tail.length < 8192)
+    (rvs : List RowVer) (hb : ∀ b ∈ bs, b.WF) (ht : tail.length < 8192)
     (hm : ColsMatch 0 mcols cols) (hne : mcols ≠ [])
-    (hrows : fileTuples bs = rvs.map (formTuple cols)) (hwf : ∀ r ∈ rvs, r.WF cols) :
+    (hrows : fileTuples bs = rvs.map (formVer cols)) (hwf : ∀ v ∈ rvs, v.2.WF cols) :
     readRows dec (encHeap bs tail) mcols vis =
-      collectM (fun r : RowV => expectedCols (varlenaVal dec) cols r.vals r.natts >>= fun ps => pure (some (toRow ps)))
-        (rvs.filter fun r => !vis || liveBits (formTuple cols r).infomask) := by
+      collectM (fun v : RowVer => expectedCols (varlenaVal dec) cols v.2.vals v.2.natts >>= fun ps => pure (some (toRow ps)))
+        (rvs.filter fun v => !vis || liveBits v.2.infomask) := by
   unfold readRows
   rw [collect_scan (fun t => decodeTuple dec t mcols) bs tail vis hb ht, hrows, List.filter_map, List.map_map,
-    ← collectM_map (mtuple ∘ formTuple cols) (fun t => decodeTuple dec t mcols)]
+    ← collectM_map (mtuple ∘ formVer cols) (fun t => decodeTuple dec t mcols)]
+  have hf : ((fun t : Tuple => !vis || liveBits t.infomask) ∘ formVer cols) = fun v : RowVer => !vis || liveBits v.2.infomask := by
+    funext v
+    simp only [Function.comp, formVer, formTupleH_infomask_live]
+  rw [hf]
   apply collectM_congr
-  intro r hr
-  have hw := hwf r (List.mem_filter.mp hr).1
-  simp only [Function.comp]
-  rw [mtuple_formTuple cols r hw]
-  exact C03_decodeTuple dec cols mcols r _ hm hw hne
+  intro v hv
+  have hw := hwf v (List.mem_filter.mp hv).1
+  simp only [Function.comp, formVer]
+  rw [mtuple_formTupleH v.1 cols v.2 hw]
+  exact C03_decodeTuple dec cols mcols v.2 _ hm hw hne
 
 /-- **One entry per declared column.**  When the column names are distinct the resulting map has exactly the
 pairs of `C03_layout`, one per declared column. -/
@@ -148,6 +157,16 @@ theorem C03_typeAlign (p : Nat × Nat) (hp : p ∈ Generated.Rows.typeAlignSwitc
   simp only [colAlign, alignFromChar, typeAlign, lookupOid, hneg, if_false, Int.toNat_natCast, hl]
   simp
 
+/-- **… and it is complete for PostgreSQL's built-in types** (fixes/rows/08).  Conversely, every built-in type of
+PostgreSQL 12–16 the Spec lists — `pgTypAlign` and `pgTypOther`, each handed over with its typlen — is aligned by the
+tool's fallback exactly as its `typalign` says: also the types the tool has no entry for and decides by length (arrays of
+'i' aligned elements, reg* types, int2vector, oidvector, pg_node_tree, the 'i' aligned multiranges …), and txid_snapshot,
+pg_snapshot, xid8, the 'd' aligned multiranges and their arrays, which the length rule alone gets wrong. -/
+theorem C03_typeAlign_complete :
+    (∀ p ∈ pgTypAlign, typeAlign (p.1 : Int) (pgTypLenOf p.1) = p.2) ∧
+    (∀ q ∈ pgTypOther, typeAlign (q.1 : Int) q.2.1 = q.2.2) := by
+  constructor <;> decide +kernel
+
 /-! ### non-vacuity: concrete rows satisfy the hypotheses, and the statement computes -/
 
 def exCols : List Col := [⟨[97], 23, 4, 4⟩, ⟨[98], 20, 8, 8⟩, ⟨[99], 25, -1, 4⟩, ⟨[100], 23, 4, 4⟩]
@@ -158,6 +177,10 @@ def exRow : RowV := { vals := [some (.fixed (le 4 111)), none, some (.short [104
 example : ColsMatch 0 exMCols exCols := by
   simp only [ColsMatch, ColMatch, exMCols, exCols]; decide
 example : exRow.WF exCols := by decide
+/-- a dead version as UPDATE leaves it: xmin 700, xmax 701, t_ctid → (0,2), HOT_UPDATED | KEYS_UPDATED -/
+def exHdr : HdrFields := { xmin := 700, xmax := 701, cid := 3, ctid := [0, 0, 0, 0, 2, 0], flags2 := 12 }
+example : exHdr.WF := by decide
+example : (formTupleH exHdr exCols exRow).infomask2 = 0x6004 ∧ (formTupleH exHdr exCols exRow).xmax = 701 := by decide
 example : form exCols exRow.vals 0 = [111, 0, 0, 0, 7, 104, 105, 0, 77, 1, 0, 0] := by decide
 example : (rowTuple ⟨24, 4, 0x0901, true, true, false, true⟩ exCols exRow).bitmap = some [0x0d] := by decide
 /-- the theorem's right-hand side on this row, with the decoder "length of the payload" -/
